@@ -749,6 +749,23 @@ def _targets():
         (lambda rng: _c_stv_dist(rng, 'droopname')))
     add('TransferableVoteDistributor:step2', lambda: vseq.TransferableVoteDistributor(eliminate_step=-2, quota_function=None),
         (lambda rng: _c_stv_dist(rng, 'noquota')), stv_grid='noquota')
+    # --- score family x constructor parameters (min_count > 0, bottom_value, truncation, unscored_value, tie-breaking)
+    for nm, mk, bottom, mc in [
+            ('MajorityJudgment:min3', lambda: vcard.MajorityJudgment(min_count=3), 0, 3),
+            ('MajorityJudgment:min2_plus', lambda: vcard.MajorityJudgment(tie_breaking='plus', min_count=2), 0, 2),
+            ('MajorityJudgment:min3_bottom1', lambda: vcard.MajorityJudgment(min_count=3, bottom_value=1), 1, 3),
+            ('MajorityJudgment:min2_unscored0', lambda: vcard.MajorityJudgment(min_count=2, unscored_value=0), 0, 2),
+            ('MajorityJudgment:min2_trunc', lambda: vcard.MajorityJudgment(min_count=2, truncation=Fraction(1, 5)), 0, 2),
+            ('ScoreVoting:min3', lambda: vcard.ScoreVoting(min_count=3), 0, 3),
+            ('ScoreVoting:median_min2_bottom1', lambda: vcard.ScoreVoting('median', min_count=2, bottom_value=1), 1, 2),
+            ('ScoreVoting:min2_trunc', lambda: vcard.ScoreVoting(min_count=2, truncation=Fraction(1, 4)), 0, 2),
+            ('STAR:min3', lambda: vcard.STAR(min_count=3), 0, 3),
+            ('STAR:min2_bottom1_unscored0', lambda: vcard.STAR(min_count=2, bottom_value=1, unscored_value=0), 1, 2)]:
+        add(nm, mk, (lambda rng, b=bottom, m=mc: _c_score_underscored(rng, m, b)), score_grid=True)
+    add('ScoreToSimpleVotes:min3', lambda: vconv.ScoreToSimpleVotes(min_count=3),
+        lambda rng: call('convert', _g_score_underscored(rng, 3, 0)), score_grid=True)
+    add('ScoreToSimpleVotes:median_min2', lambda: vconv.ScoreToSimpleVotes('median', min_count=2, bottom_value=1),
+        lambda rng: call('convert', _g_score_underscored(rng, 2, 1)), score_grid=True)
     # --- constructor values that select another code path and had no target
     # (AllocatedScoreDistributor(quota_function=None) is annotated Optional but cannot be constructed: KeyError 'unknown quota: None')
     add('ByConstituency:dict_apportioner', lambda: vcore.ByConstituency(HA(), apportioner={'d0': 2, 'd1': 1, 'd2': 3, 'c0': 1, 'c1': 2, 'c2': 1}),
@@ -912,6 +929,33 @@ def c_dispatch_flat(rng):
     if rng.random() < 0.4:
         k['max_seats'] = D([(c, rng.randint(1, 3)) for c in cs])
     return call('evaluate', g_simple(rng, cs, frac=False), rng.randint(1, 4), **k)
+
+
+def _g_score_underscored(rng, min_count, bottom):
+    """score ballots in which one candidate is scored by fewer than min_count voters (it gets the bottom table) and another
+    one has the bottom value as its median: they tie at the median for the last of two seats, so the tie-break runs over the
+    bottom table"""
+    names = rng.sample(CN, rng.randint(3, 4))
+    top, mid, under = names[:3]
+    u1 = rng.randint(1, min_count - 1)
+    c = rng.randint(0, 1)
+    a = rng.randint(2, 3)
+    b = rng.randint(max(1, u1 + c - a + 1), max(1, u1 + c - a + 1) + 1)       # low scores of `mid` stay the majority
+    hi = rng.randint(4, 5)
+    ballots = [(S([T([top, 5]), T([mid, bottom])]), a), (S([T([top, 4]), T([mid, bottom])]), b),
+               (S([T([top, 4]), T([mid, hi]), T([under, hi])]), u1)]
+    if c:
+        ballots.append((S([T([top, 3]), T([mid, hi])]), c))
+    if len(names) > 3 and rng.random() < 0.5:
+        ballots.append((S([T([top, 2]), T([names[3], rng.randint(1, 5)])]), 1))      # a second under-scored candidate
+    rng.shuffle(ballots)
+    return D(ballots)
+
+
+def _c_score_underscored(rng, min_count, bottom):
+    if rng.random() < 0.75:
+        return call('evaluate', _g_score_underscored(rng, min_count, bottom), 2)
+    return call('evaluate', g_score(rng), g_seats(rng, 2))
 
 
 def vquota_mod():
@@ -1572,6 +1616,15 @@ def oracle(case, obs):
             else:
                 continue
             break
+    for d in obs['drift']:
+        if d['unmodelled']:
+            if d['class'] == 'module':
+                out.append(('module_state_changed', f"module-level data {d['unmodelled']} of the library changed during the history"))
+            else:
+                out.append((f"instance_state_changed:{d['target']}",
+                            f"attribute(s) {d['unmodelled']} of the {d['class']} instance changed during call {d['call']}: evaluation "
+                            "does not leave the evaluator as it was (no state-machine model covers these attributes)"))
+            break
     if obs['mutated']:
         m = obs['mutated'][0]
         out.append((f"argument_mutated:{m['target']}", f"call {m['call']} ({m['run']} {m['target']}): arguments "
@@ -1593,7 +1646,7 @@ REQUIRED_COUNTERS = ['every_class', 'singleton', 'pav_cache_grows', 'pav_small_a
                      'draw:RandomUnrankedBallotSelector.evaluate', 'draw_via:initial_allocation', 'draw_via:direct_transfer',
                      'draw_via:next_count', 'foreign_first', 'model:dispatch', 'raise_first', 'call_after_exception',
                      'call_after_refusal', 'refusal_first', 'prev_gains_then_none', 'larger_then_smaller', 'smaller_after_larger',
-                     'stv_dist_no_quota_partial_caps', 'stv_dist_no_quota_none_caps', 'stv_dist_no_quota_full_caps',
+                     'score_params_underscored', 'stv_dist_no_quota_partial_caps', 'stv_dist_no_quota_none_caps', 'stv_dist_no_quota_full_caps',
                      'stv_dist_quota_partial_caps', 'stv_dist_quota_none_caps', 'stv_dist_quota:noquota', 'stv_dist_quota:droopname',
                      'stv_dist_quota:harecallable', 'stv_dist_quota:constant', 'foreign_first:other_parameters', 'hash_alike', 'hash_alike:mersenne', 'hash_alike:neg', 'hash_alike:key_order', 'hash_alike:numtype', 'module_function',
                      'ctor_param_nondefault', 'names:int0', 'names:empty0', 'names:person', 'shared_rank3', 'zero_votes2',
@@ -1616,6 +1669,8 @@ def _tag_calls(TG, targets, calls, tags):
             tags.append('prev_gains_given')
             if any(isinstance(v, dict) and 'D' in v for _, v in k['prev_gains'].get('D', [])):
                 tags.append('nested_prev_gains')
+        if t.get('score_grid'):
+            tags.append('score_params_underscored')
         if t.get('stv_grid') and c.get('_stv'):
             tags.append(f"stv_dist_{'no_quota' if t['stv_grid'] == 'noquota' else 'quota'}_{c['_stv']}_caps")
             tags.append('stv_dist_quota:' + t['stv_grid'])
@@ -1727,6 +1782,11 @@ def generate(rng, tier):
         for _ in range(8 if tier == 'quick' else 60):
             calls = [dict(TG[name]['gen'](rng), t=0) for _ in range(rng.randint(2, 4))]
             yield _mk([name], calls, _tag_calls(TG, [name], calls, ['stv_grid']))
+    # (5d'') score family with min_count > 0 etc.: several calls on one instance, an under-scored candidate in the tie-break
+    for name in [n for n in names if TG[n].get('score_grid')]:
+        for _ in range(6 if tier == 'quick' else 50):
+            calls = [dict(TG[name]['gen'](rng), t=0) for _ in range(rng.randint(2, 4))]
+            yield _mk([name], calls, _tag_calls(TG, [name], calls, ['score_grid']))
     # (5e) inputs that hash alike or are equal up to key order, against an isolated reference
     yield from _hash_alike(rng, TG, 120 if tier == 'quick' else 800)
     # (6) a class found by reflection that the table does not know: try it with no arguments on simple votes
